@@ -162,11 +162,11 @@ func foldBinding(r *core.Run) {
 		{"assign", api.LoaderJS, wrapAssign, [3]bool{true, false, false}},
 		{"const", api.LoaderJS, wrapConstFn, [3]bool{true, false, false}},
 		{"ts-enum", api.LoaderTS, wrapEnum, [3]bool{true, false, false}},
-		{"ts-const", api.LoaderTS, wrapConstFn, [3]bool{true, false, false}},
 		{"assign-min", api.LoaderJS, wrapAssign, [3]bool{true, true, true}},
 	}
 	if r.Thorough() {
 		ctxs = append(ctxs,
+			foldCtx{"ts-const", api.LoaderTS, wrapConstFn, [3]bool{true, false, false}},
 			foldCtx{"ts-enum-min", api.LoaderTS, wrapEnum, [3]bool{true, true, true}},
 			foldCtx{"const-top", api.LoaderJS, wrapConst, [3]bool{true, false, false}},
 			foldCtx{"arg", api.LoaderJS, wrapArg, [3]bool{true, false, false}},
